@@ -87,6 +87,108 @@ def func_deletions(spec):
                     yield dels + [{"op": "ins", "b": b["n"], "k": k, "p": P_ORD if b["k"] == "c" else P_DATA}]
 
 
+# ------------------------------------------------------------------ register_insert_function
+BODIES = {
+    "single": [["p", 0], ["ret"]],
+    "nop-only": [["p", 0]],
+    "branching": [["p", 0], ["jcc", ".Lx"], ["p", 0], ["lab", ".Lx"], ["p", 0], ["ret"]],
+    "loop": [["lab", ".Ly"], ["p", 0], ["jcc", ".Ly"], ["ret"]],
+    "calls-existing": [["call", "A"], ["p", 0], ["ret"]],
+    "calls-new": [["call", "newf2"], ["p", 0], ["ret"]],
+}
+NEWFUNC_CASES = [
+    [("newf1", "single")],
+    [("newf1", "nop-only")],
+    [("newf1", "branching")],
+    [("newf1", "loop")],
+    [("newf1", "calls-existing")],
+    [("newf1", "calls-new"), ("newf2", "single")],
+    [("newf1", "branching"), ("newf2", "branching")],
+    [("newf2", "single"), ("newf1", "calls-new")],
+]
+
+
+def check_newfunc(spec, funcs, mods):
+    """funcs: [(name, body id)] inserted with register_insert_function, plus ordinary mods."""
+    import gtirb
+    from gtirb_rewriting import RewritingContext
+
+    from ..world import compare as C
+    from ..world import listing as Lg
+
+    isa_ = Lg.isamod.TARGETS[spec["target"]][0]
+    w = Lg.build(spec)
+    m = w.m
+    before = {u: (set(bs), set(m.aux_data["functionEntries"].data.get(u, ())), m.aux_data["functionNames"].data.get(u)) for u, bs in m.aux_data["functionBlocks"].data.items()}
+    ctx = RewritingContext(m, w.funcs)
+    syms = {}
+    tag = 200
+    bodies = {}
+    try:
+        for name, body in funcs:
+            toks = []
+            for t in BODIES[body]:
+                t = list(t)
+                if t[0] == "p":
+                    t = ["p", tag]
+                    tag += 1
+                toks.append(t)
+            bodies[name] = toks
+            syms[name] = ctx.register_insert_function(name, Lg.make_patch(isa_, toks))
+        Lg.register(w, ctx, mods)
+        ctx.apply()
+    except Exception as e:
+        return "raised", [C.D("newfunc-apply-raised", r_exc=type(e).__name__, msg=str(e)[:120], r_bodies="+".join(b for _, b in funcs))]
+    diffs = []
+    fn, fe, fb = m.aux_data["functionNames"].data, m.aux_data["functionEntries"].data, m.aux_data["functionBlocks"].data
+    if not (set(fn) == set(fe) == set(fb)):
+        diffs.append(C.D("functable-key-sets-differ"))
+    owner = {}
+    for u, bs in fb.items():
+        for b in bs:
+            if b in owner:
+                diffs.append(C.D("block-in-two-functions"))
+            owner[b] = u
+    for name, body in funcs:
+        sym = syms[name]
+        role = {"r_body": body}
+        if sym not in m.symbols or not isinstance(sym.referent, gtirb.CodeBlock) or sym.referent.module is not m:
+            diffs.append(C.D("newfunc-symbol-not-on-a-code-block-of-the-module", **role))
+            continue
+        us = [u for u, s_ in fn.items() if s_ is sym]
+        if len(us) != 1:
+            diffs.append(C.D("newfunc-not-exactly-one-function-named-by-its-symbol", count=len(us), **role))
+            continue
+        u = us[0]
+        ents, blks = fe.get(u, set()), fb.get(u, set())
+        if ents != {sym.referent}:
+            diffs.append(C.D("newfunc-entries-are-not-exactly-its-symbol-block", n_entries=len(ents), r_rel="extra" if sym.referent in ents else "missing", **role))
+        if not ents <= blks:
+            diffs.append(C.D("newfunc-entries-not-subset-of-blocks", **role))
+        if any(not isinstance(b, gtirb.CodeBlock) or b.module is not m for b in blks):
+            diffs.append(C.D("newfunc-block-not-code-or-not-in-module", **role))
+            continue
+        ivs = {b.byte_interval for b in blks}
+        if len(ivs) != 1:
+            diffs.append(C.D("newfunc-blocks-in-several-intervals", **role))
+            continue
+        bi = next(iter(ivs))
+        code = b"".join(bytes(bi.contents[b.offset : b.offset + b.size]) for b in sorted(blks, key=lambda b: b.offset))
+        want = b"".join(isa_.enc(tuple(t))[0] for t in bodies[name] if t[0] != "lab")
+        if code != want:
+            diffs.append(C.D("newfunc-body-bytes", expected=want.hex(), observed=code.hex(), **role))
+        # every code block of the new interval belongs to the function
+        for b in bi.blocks:
+            if isinstance(b, gtirb.CodeBlock) and b.size and owner.get(b) != u:
+                diffs.append(C.D("newfunc-code-block-outside-its-function", **role))
+    # pre-existing functions keep their tables unless ordinary modifications touched them
+    if not mods:
+        for u, (bs, es, nm) in before.items():
+            if fb.get(u) != bs or fe.get(u) != es or fn.get(u) is not nm:
+                diffs.append(C.D("newfunc-changed-an-existing-function"))
+    return ("ok" if not diffs else "diff"), diffs
+
+
 PROBLEMS = (
     "block-in-two-functions",
     "functable-key-sets-differ",
@@ -108,6 +210,7 @@ def tasks(tier):
     for name in LAYOUTS:
         t.append(("sets", name, BOUNDS[tier]["set_size"]))
         t.append(("funcdel", name, 0))
+        t.append(("newfunc", name, 0))
     d = BOUNDS[tier]["chain_depth"]
     for name in ("funcless-between", "two-entries") if tier == "quick" else list(LAYOUTS):
         for first in range(chain.n_first(make_spec(name))):
@@ -127,6 +230,17 @@ def run_task(task):
         return res
     mode, name, n = task
     spec = make_spec(name)
+    if mode == "newfunc":
+        atoms = [[]] + [[a] for a in atoms_for(spec) if a["op"] == "ins" and a["p"] == P_ORD][::3] + [[{"op": "del", "b": "A", "k": 0, "n": len(spec["sections"][0]["blocks"][0]["i"])}]]
+        for funcs in NEWFUNC_CASES:
+            for mods in atoms:
+                mods = scen.retag(mods)
+                outcome, diffs = check_newfunc(spec, funcs, mods)
+                res.case((name, "newfunc", funcs, mods), nontrivial=True, outcome=outcome)
+                if diffs:
+                    res.bad({"spec": spec, "newfunc": [list(f) for f in funcs], "mods": mods}, diffs)
+            res.sample({"layout": name, "newfunc": [list(f) for f in funcs], "mods": []}, cap=1)
+        return res
     gen = scen.mod_sets(spec, atoms_for(spec), n, orders="same-offset") if mode == "sets" else func_deletions(spec)
     for mods in gen:
         mods = scen.retag(mods)
@@ -140,6 +254,8 @@ def run_task(task):
 
 
 def replay(case):
+    if "newfunc" in case:
+        return check_newfunc(case["spec"], [tuple(f) for f in case["newfunc"]], case["mods"])[1]
     if "history" in case:
         return chain.replay(case, aspects=["functions"], problem_kinds=PROBLEMS)
     return check(case["spec"], case["mods"])[1]
